@@ -458,6 +458,100 @@ func cmdCheck(args []string) int {
 			preSolved[o] = true
 		}
 	}
+	// reference walks: the traversal reads every field that can hold a reference
+	for _, rw := range p.cs.RefWalks {
+		if !hasTag(rw.Tags, *prop) {
+			continue
+		}
+		root := p.fnByID[rw.Pkg+"::"+rw.Root]
+		pk := p.byPath[rw.Pkg]
+		if root == nil || pk == nil {
+			fmt.Fprintf(os.Stderr, "govc: refwalk root %s not found\n", rw.Root)
+			os.Exit(2)
+		}
+		isRef := map[string]bool{}
+		for _, t := range rw.RefTypes {
+			isRef[t] = true
+		}
+		holdsRef := func(t types.Type) bool {
+			for i := 0; i < 8; i++ {
+				switch u := t.(type) {
+				case *types.Pointer:
+					t = u.Elem()
+					continue
+				case *types.Slice:
+					t = u.Elem()
+					continue
+				case *types.Map:
+					t = u.Elem()
+					continue
+				case *types.Named:
+					if u.Obj().Pkg() != nil && u.Obj().Pkg().Path() == rw.Pkg && isRef[u.Obj().Name()] {
+						return true
+					}
+					t = u.Underlying()
+					if _, isStruct := t.(*types.Struct); isStruct {
+						return false
+					}
+					continue
+				case *types.Alias:
+					t = types.Unalias(u)
+					continue
+				}
+				break
+			}
+			return false
+		}
+		// fields read by module functions reachable from the root
+		read := map[string]bool{}
+		for fn := range p.reachable(root) {
+			if !inModule(fn) {
+				continue
+			}
+			for _, b := range fn.Blocks {
+				for _, ins := range b.Instrs {
+					var st types.Type
+					var idx int
+					switch x := ins.(type) {
+					case *ssa.FieldAddr:
+						st, idx = x.X.Type().Underlying().(*types.Pointer).Elem(), x.Field
+					case *ssa.Field:
+						st, idx = x.X.Type(), x.Field
+					default:
+						continue
+					}
+					if n := namedOf(st); n != nil {
+						read[n.Obj().Name()+"."+st.Underlying().(*types.Struct).Field(idx).Name()] = true
+					}
+				}
+			}
+		}
+		scope := pk.Types.Scope()
+		for _, tn := range scope.Names() {
+			obj, ok := scope.Lookup(tn).(*types.TypeName)
+			if !ok || !obj.Exported() {
+				continue
+			}
+			stt, ok := obj.Type().Underlying().(*types.Struct)
+			if !ok {
+				continue
+			}
+			for i := 0; i < stt.NumFields(); i++ {
+				f := stt.Field(i)
+				if !f.Exported() || !holdsRef(f.Type()) {
+					continue
+				}
+				key := tn + "." + f.Name()
+				o := &Obligation{Name: "refwalk/" + rw.Root + "/reads/" + key, Class: "frame-scan", Func: rw.Root, Tags: rw.Tags, Expect: "unsat", Src: "refwalk " + rw.Root, Pos: p.fset.Position(f.Pos()).String()}
+				o.Result = &SolveResult{Status: "unsat", Solver: "callgraph-scan"}
+				if !read[key] {
+					o.Result = &SolveResult{Status: "sat", Solver: "callgraph-scan", Output: "no function reachable from " + rw.Root + " reads " + key + ": references stored there are never visited"}
+				}
+				all = append(all, o)
+				preSolved[o] = true
+			}
+		}
+	}
 	// funnels: designated callees may only be called from the listed functions
 	for _, oc := range p.cs.OnlyCalledBy {
 		if !hasTag(oc.Tags, *prop) {
